@@ -7,6 +7,8 @@ fn main() {
     cfg.p_malformed = 12;
     cfg.rich_text = true;
     cfg.queries = false;
+    // two of the six codes are registered through ContractWrapper::new_with_empty(..).with_*_empty(..)
+    cfg.wrapped_codes = true;
     run_prop("C13", "c13", cfg, 150, 1500, vec![],
         "scenarios whose responses draw attribute keys / values / event types from a grammar of boundary strings (empty, blanks, '_' in every position, U+00A0, U+3000, U+200B, 2-byte characters, 0-2 byte types) with 12 % malformed, at every entry point and depth; distinct by SHA-256; non-trivial = a program with a malformed response was actually entered",
         &|_, obs| obs.iter().any(|o| !o.trace.is_empty() && !matches!(o.outcome, OutcomeS::Ok(_))));
